@@ -5,6 +5,7 @@
 //!   `R OK` | `R ERR <hex of the error text>` | `R PANIC`
 //!   `U <ns|-> <locale> <top_locale_string_count> <n> <hexstr>*n`          table of one translation unit
 //!   `T <ns|-> <locale> <tree>`                                            value tree of that unit, see `dump_group`
+//!   `I <ns|-> <kinds>`                                                    final InterpolOrLit of every key, see `dump_kinds`
 //!   `W OK` | `W ERR <hex>` | `W PANIC`                                    result of write_to_dir
 //!   `F <hex of relative path> <hex of the file's bytes>`                  every file found below <out_dir>
 //! strings are printed as `s` followed by the code points in hex joined by `.`
@@ -14,7 +15,7 @@ use std::panic::{catch_unwind, AssertUnwindSafe};
 use std::path::{Path, PathBuf};
 
 use leptos_i18n_build::TranslationsInfos;
-use leptos_i18n_parser::parse_locales::locale::{BuildersKeys, BuildersKeysInner, Locale, LocaleValue};
+use leptos_i18n_parser::parse_locales::locale::{BuildersKeys, BuildersKeysInner, InterpolOrLit, LiteralType, Locale, LocaleValue};
 use leptos_i18n_parser::parse_locales::parse_locales;
 use leptos_i18n_parser::parse_locales::parsed_value::{Literal, ParsedValue};
 use leptos_i18n_parser::utils::Key;
@@ -41,7 +42,7 @@ fn hexbytes(b: &[u8]) -> String {
 }
 
 /// value tree, prefix notation:
-/// D default | F foreign key | V variable | S subkeys (in value position) | O non-string literal
+/// D default | F foreign key | V variable | S subkeys (in value position) | Ob Oi Ou Of bool / signed / unsigned / float literal
 /// L <str> <index> | R n v*n | C v | P n v*n v | B n v*n
 fn dump_value(v: &ParsedValue, o: &mut String) {
     match v {
@@ -52,7 +53,10 @@ fn dump_value(v: &ParsedValue, o: &mut String) {
         ParsedValue::Literal(Literal::String(s, i)) => {
             write!(o, " L {} {}", hs(s), i).unwrap();
         }
-        ParsedValue::Literal(_) => o.push_str(" O"),
+        ParsedValue::Literal(Literal::Bool(_)) => o.push_str(" Ob"),
+        ParsedValue::Literal(Literal::Signed(_)) => o.push_str(" Oi"),
+        ParsedValue::Literal(Literal::Unsigned(_)) => o.push_str(" Ou"),
+        ParsedValue::Literal(Literal::Float(_)) => o.push_str(" Of"),
         ParsedValue::Ranges(r) => {
             let mut n = 0usize;
             let mut inner = String::new();
@@ -106,7 +110,30 @@ fn dump_group(keys: &BuildersKeysInner, li: usize, values: &BTreeMap<Key, Parsed
     }
 }
 
+/// `G n` then n entries `k<hexkey>` followed by `I` (interpolation: a builder), `Ts` `Tb` `Ti` `Tu` `Tf` (literal of
+/// that type in every locale) or a nested group for subkeys: the state `merge` leaves in `LocaleValue::Value { value }`
+fn dump_kinds(keys: &BuildersKeysInner, o: &mut String) {
+    write!(o, " G {}", keys.0.len()).unwrap();
+    for (k, lv) in &keys.0 {
+        write!(o, " k{}", &hs(&k.name)[1..]).unwrap();
+        match lv {
+            LocaleValue::Value { value, .. } => match value {
+                InterpolOrLit::Interpol(_) => o.push_str(" I"),
+                InterpolOrLit::Lit(LiteralType::String) => o.push_str(" Ts"),
+                InterpolOrLit::Lit(LiteralType::Bool) => o.push_str(" Tb"),
+                InterpolOrLit::Lit(LiteralType::Signed) => o.push_str(" Ti"),
+                InterpolOrLit::Lit(LiteralType::Unsigned) => o.push_str(" Tu"),
+                InterpolOrLit::Lit(LiteralType::Float) => o.push_str(" Tf"),
+            },
+            LocaleValue::Subkeys { keys, .. } => dump_kinds(keys, o),
+        }
+    }
+}
+
 fn dump_unit(ns: Option<&str>, locales: &[Locale], keys: &BuildersKeysInner, out: &mut String) {
+    let nsn = ns.map(|n| hs(n)).unwrap_or_else(|| "-".to_string());
+    write!(out, ";I {}", nsn).unwrap();
+    dump_kinds(keys, out);
     for (li, l) in locales.iter().enumerate() {
         let nsn = ns.map(|n| hs(n)).unwrap_or_else(|| "-".to_string());
         write!(out, ";U {} {} {} {}", nsn, hs(&l.name.name), l.top_locale_string_count, l.strings.len()).unwrap();
